@@ -69,7 +69,7 @@ THEOREMS = ["P_SameShape: [][SameH(obj, obj')]_vars (every evaluated point uncha
 
 
 def run(ctx):
-    res = core.run_tlc("MC_C04", "MC_C04_%s.cfg" % ctx.tier, timeout=3400)
+    res = core.run_model(ctx, "MC_C04", 3400, thorough_seeds=(2, 3))
     core.tlc_must_pass(res, "MC_C04")
     ctx.add_tlc(res, "exhaustive over initial shapes x histories of insert_knot calls; action properties checked on every transition")
     ctx.theorems = THEOREMS
